@@ -34,6 +34,36 @@ def make_cases(rng, tier, n):
                 stats["same_size_old_mtime"] = stats.get("same_size_old_mtime", 0) + 1
                 cases.append(c)
                 continue
+        if not pipe and i % 12 == 9:
+            # after a link commit, edits that leave nothing to hash: a committed link deleted (in a sub-directory when there is one),
+            # two committed links of one directory swapped, a file replaced by an empty file; the tree is committed again and the
+            # checkout straight after that commit is a no-op — in the workspace and in a clone
+            tracked = [e for e in c["init"] if e[0] == "file" and
+                       any(e[1].startswith(p_ + b"/") for p_, fl_, sp_ in s1eval.artifacts(c) if "d" in fl_ and "s" not in fl_ and "r" not in fl_)]
+            bydir = {}
+            for e in tracked:
+                bydir.setdefault(e[1].rsplit(b"/", 1)[0], []).append(e)
+            if tracked:
+                deep = sorted(tracked, key=lambda e: -e[1].count(b"/"))
+                edits = []
+                kind = ["delete", "swap", "empty", "all"][(i // 12) % 4]
+                if kind in ("delete", "all"):
+                    edits.append(("rm", deep[0][1]))
+                pairs = [es for d_, es in sorted(bydir.items()) if len([x for x in es if x[1] != deep[0][1]]) >= 2]
+                if kind in ("swap", "all") and pairs:
+                    a_, b_ = [x for x in pairs[0] if x[1] != deep[0][1]][:2]
+                    edits += [("mv", a_[1], a_[1] + b".swp"), ("mv", b_[1], a_[1]), ("mv", a_[1] + b".swp", b_[1])]
+                if kind in ("empty", "all") or not edits:
+                    edits.append(("write", deep[-1][1], "g:1:0"))
+                c["ops"] = [("commit", "l", [])] + edits + [("commit", "l", []), ("checkout", "l", False, []), ("status", []),
+                                                          ("clone", [b"workdir", b"workdir/inner"] if c.get("cwd") else []),
+                                                          ("checkout", rng.choice("lc"), False, [])]
+                c["seq"] = ["l", "no-bytes-edit:" + kind, "commit-l", "checkout-l", "clone", "checkout"]
+                c["first_index"] = 1 + len(edits)
+                c["clone_checks"] = True
+                stats["no_bytes_edit_" + kind] = stats.get("no_bytes_edit_" + kind, 0) + 1
+                cases.append(c)
+                continue
         seq = []
         for _ in range(rng.randrange(1, 5)):
             k, s_ = rng.choice(CMDS)
@@ -69,6 +99,26 @@ def oracle(run):
         prev, cur = steps[i - 1], steps[i]
         op = cur["op"]
         if op[0] not in ("commit", "checkout"):
+            continue
+        if prev["op"][0] == "clone":
+            # a fresh workspace: the checkout must bring back exactly what the last commit saw
+            what = "`%s` in a clone after `%s`" % (s1.op_text(op), " ; ".join(s1.op_text(s["op"]) for s in steps[:i]))
+            if cur["rc"] != 0:
+                v.append(("clone-checkout-fails", "%s exits %d: %s" % (what, cur["rc"], cur["stderr"][-160:])))
+                break
+            diff, got, want_ = [], {}, {}
+            for a_, fl_, sp_ in s1eval.artifacts(run["case"]):
+                if "s" in fl_:
+                    continue
+                w_ = s1eval.logical(steps[first]["snap"], under=a_, skip_dirs_top=("r" in fl_))
+                g_ = s1eval.logical(cur["snap"], under=a_, skip_dirs_top=("r" in fl_))
+                want_.update(w_)
+                got.update(g_)
+                diff += [p for p in set(w_) | set(g_) if w_.get(p) != g_.get(p)]
+            committed_ = want_
+            if diff:
+                v.append(("clone-differs", "%s does not reproduce what the last commit saw, e.g. %r: %s -> %s" % (
+                    what, sorted(diff)[0], committed_.get(sorted(diff)[0]), got.get(sorted(diff)[0]))))
             continue
         what = "`%s` after `%s`" % (s1.op_text(op), " ; ".join(s1.op_text(s["op"]) for s in steps[:i]))
         if cur["rc"] != 0:
